@@ -8,16 +8,29 @@
    in eager mode only the executions that feed END are compared, and nothing is compared on
    a failed eager run but the error class).
    White box: every trace must be accepted by the LTS of Model/TaskMgr.v, the LTS must end with
-   as many uncollected tasks as the harness counted, and none in batch mode. *)
-From Eino Require Import Base.Util Model.TaskMgr Model.Confluence.
+   as many uncollected tasks as the harness counted, and none in batch mode.
+   Both together (eager mode): the collection order recorded in the trace is a schedule of the
+   order-side model; under it the model must return the same outcome, start exactly the same
+   executions and leave exactly the same tasks running ([eager_run_ok]). *)
+From Eino Require Import Base.Util Model.TaskMgr Model.Confluence Model.EagerSkip.
 
 Inductive robs := RVal (v : val) | RErr | RPanic | RHang.
 
+(* one traced run: the protocol trace, the number of submitted-but-uncollected tasks the harness
+   counted at the return, what the run returned and every execution it started *)
+Record trun := mkrun {
+  r_trace : list ev;
+  r_left : nat;
+  r_out : robs;
+  r_log : exec_log;
+}.
+
 Record ccase := mkcase {
   c_mode : N;                                   (* 0 pregel (batch), 1 dag (batch), 2 eager (dag) *)
-  c_graph : graph;
+  c_graph : graph;                              (* [] = outside the order-side models (batch + branches) *)
+  c_brs : list br;                              (* branches (eager mode only: Model/EagerSkip.v) *)
   c_obs : list (robs * exec_log);
-  c_traces : list (list ev * nat);
+  c_traces : list trun;
 }.
 
 Fixpoint val_eqb (a b : val) : bool :=
@@ -56,15 +69,22 @@ Definition is_batch (c : ccase) : bool := N.eqb (c_mode c) 0 || N.eqb (c_mode c)
    error must be what the oldest-first schedule predicts, unless the graph has a failing node
    that does not feed END (then value and error are both possible, F-C03c).  Which executions had
    started when a failure was collected is timing: not compared. *)
-Definition eager_obs_ok (g : graph) (o : robs * exec_log) : bool :=
+(* the eager model of a case: Model/Confluence.v without branches, Model/EagerSkip.v with *)
+Definition eager_model (g : graph) (brs : list br) (pick : list (node * val) -> nat) : outcome * exec_log * list nid :=
+  match brs with
+  | [] => eager pick g (fuel_of g)
+  | _ => seager true pick (mksg g brs) (fuel_of g)
+  end.
+
+Definition eager_obs_ok (g : graph) (brs : list br) (o : robs * exec_log) : bool :=
   match fst o with
   | RVal v =>
-      match eager pick_ok g (fuel_of g) with
+      match eager_model g brs pick_ok with
       | (ODone v', log, _) => val_eqb v v' && log_eqb (feeding g (snd o)) (feeding g log)
       | _ => false
       end
   | RErr =>
-      match eager pick_first g (fuel_of g) with
+      match eager_model g brs pick_first with
       | (OFail, _, _) => true
       | (ODone _, _, _) => has_fail_nonanc g
       | _ => false
@@ -80,18 +100,50 @@ Definition obs_ok (c : ccase) (o : robs * exec_log) : bool :=
     | RErr, OFail => log_eqb (snd o) log
     | _, _ => false
     end
-  else eager_obs_ok (c_graph c) o.
+  else eager_obs_ok (c_graph c) (c_brs c) o.
 
-Definition trace_ok (c : ccase) (t : list ev * nat) : bool :=
-  accepts (fst t) &&
-  match trace_leftover (fst t) with
+(* the schedule of a traced run: the order in which its tasks were collected, the tasks it submitted *)
+Fixpoint recv_seq (tr : list ev) : list nid :=
+  match tr with
+  | [] => []
+  | EvRecv t _ :: tr' => t :: recv_seq tr'
+  | _ :: tr' => recv_seq tr'
+  end.
+Fixpoint submitted (tr : list ev) : list nid :=
+  match tr with
+  | [] => []
+  | EvSpawn t _ :: tr' => t :: submitted tr'
+  | EvSync t _ :: tr' => t :: submitted tr'
+  | _ :: tr' => submitted tr'
+  end.
+Definition set_eqb (a b : list nid) : bool :=
+  Nat.eqb (List.length a) (List.length b) && forallb (fun x => nmem x b) a && forallb (fun x => nmem x a) b.
+
+(* eager mode, exact: under the schedule recorded in the trace the model returns the same outcome,
+   has started exactly the same executions (all of them, with their inputs) and leaves exactly the
+   tasks running that the trace shows as submitted and never collected *)
+Definition eager_run_ok (g : graph) (brs : list br) (r : trun) : bool :=
+  let seq := recv_seq (r_trace r) in
+  let '(out, log, lrun) := eager_model g brs (pick_seq seq) in
+  match r_out r, out with
+  | RVal v, ODone v' => val_eqb v v'
+  | RErr, OFail => true
+  | _, _ => false
+  end &&
+  log_eqb (r_log r) log &&
+  set_eqb lrun (filter (fun x => negb (nmem x seq)) (submitted (r_trace r))).
+
+Definition trace_ok (c : ccase) (r : trun) : bool :=
+  accepts (r_trace r) &&
+  match trace_leftover (r_trace r) with
   | Some (lft, n) =>
-      Nat.eqb lft (snd t) && Nat.eqb n (snd t) &&
+      Nat.eqb lft (r_left r) && Nat.eqb n (r_left r) &&
       (if is_batch c then Nat.eqb lft 0 else true)
   | None => false
-  end.
+  end &&
+  (if is_batch c || is_nil (c_graph c) then true else eager_run_ok (c_graph c) (c_brs c) r).
 
 Definition bad (c : ccase) : bool :=
-  negb (forallb (obs_ok c) (c_obs c) && forallb (trace_ok c) (c_traces c)).
+  negb ((is_nil (c_graph c) || forallb (obs_ok c) (c_obs c)) && forallb (trace_ok c) (c_traces c)).
 
 Definition mismatches (cs : list ccase) : list nat := mismatches_from bad 0 cs.
